@@ -207,7 +207,7 @@ func LockStep(p *Prog, spec LockStepSpec, sums map[string]Summary) []LockStepRes
 				}
 			case *ssa.Return:
 				if spec.RetIndex >= 0 && spec.RetIndex < len(x.Results) && !ReturnsNonNilError(x) {
-					rv := x.Results[spec.RetIndex]
+					rv := RetVal(x, spec.RetIndex)
 					if c, isC := ConstInt(rv); isC && c < 0 {
 						continue // error sentinel result
 					}
